@@ -2,12 +2,12 @@
 (* Gen + invariants + case emission for the non-interference family (TLC only). *)
 EXTENDS CallEffects, TLC, Json, SequencesExt
 
-VARIABLE prog
+VARIABLES prog, pv
 
 Param(kd, way, amp, sc) == [kd |-> kd, way |-> way, amp |-> amp, sc |-> sc]
 StmtContexts == {"top", "block", "loop", "then", "else", "elif_then", "elif_else", "elif2", "label"}
 \* the markers the caller has to write for an argument of this kind
-Needed(kd) == CASE kd \in {"value", "word", "aview", "sview", "xaview"} -> 0 [] kd \in {"sptr", "ptr", "xsptr"} -> 1 [] kd = "pptr" -> 2
+Needed(kd) == CASE kd \in {"value", "word", "aview", "sview", "xaview"} -> 0 [] kd \in {"sptr", "ptr", "xsptr", "ptr_elem", "ptr_mem"} -> 1 [] kd = "pptr" -> 2
 \* what a callee can do with a parameter of each kind (a slice pointer handed on bare panics the compiler,
 \* see notes F3; extern callees do not forward to the ordinary g)
 WaysOf(kd) == CASE kd = "aview" -> Ways \cup {"xfwd", "xfwdamp"}
@@ -30,12 +30,26 @@ XPairs  == UNION {{<<Param(k1, w1, Needed(k1), "top"), Param(k2, w2, Needed(k2),
                       w1 \in {"read", "write"}, w2 \in WaysOf(k2) \ {"none", "read"}, sc \in {"top", "elif_then"}} :
                   k1 \in ExternMates, k2 \in ExternKinds}
 
-Init == prog \in Singles \cup Pairs \cup XPairs
-Next == UNCHANGED prog
+\* Dimension audit: three parameters of which only the MIDDLE argument carries the wrong number of address markers
+\* (or the right one: amp ranges over 0..2), the outer ones are right
+Triples == {<<Param(k1, IF k1 = "ptr" THEN "write" ELSE "read", Needed(k1), "top"), Param(k2, w2, amp, "top"),
+              Param(k3, IF k3 = "ptr" THEN "write" ELSE "copy", Needed(k3), "top")>> :
+                k1 \in {"value", "ptr"}, k3 \in {"aview", "ptr"}, k2 \in Kinds \cup PlaceKinds, w2 \in {"write", "forward"}, amp \in 0..2}
+
+\* Program variants that neither the rules nor the machine look at (pv): the caller stands BEFORE the callee and its
+\* helpers in the file ("mainfirst"), the call is made twice in a row before the second print ("twice": the writes of
+\* the family are idempotent), both.
+Variants == {"mainfirst", "twice", "mainfirst_twice"}
+Plain == Singles \cup Pairs \cup XPairs \cup Triples
+Varied == {p \in Singles : p[1].sc = "top"} \cup {p \in Triples : p[2].amp = Needed(p[2].kd)}
+
+Init == \/ (prog \in Plain /\ pv = "")
+        \/ (prog \in Varied /\ pv \in Variants)
+Next == UNCHANGED <<prog, pv>>
 
 \* the machine never changes a cell without an address marker on the argument
 Safe == ProgAccepted(prog) => NonInterference(prog, AsSeq(Before), AsSeq(After(prog)))
 \* an accepted program that writes through a parameter does reach the caller (the family is not vacuous)
-Emit == PrintT(<<"CASE", ToJson([prog |-> prog, ok |-> ProgAccepted(prog), codes |-> SetToSortSeq(Codes(prog), <),
+Emit == PrintT(<<"CASE", ToJson([prog |-> prog, pv |-> pv, ok |-> ProgAccepted(prog), codes |-> SetToSortSeq(Codes(prog), <),
                                  before |-> AsSeq(Before), after |-> AsSeq(After(prog))])>>)
 =============================================================================
